@@ -45,7 +45,10 @@ type World struct {
 
 	ctx    context.Context
 	cancel context.CancelFunc
-	wg     sync.WaitGroup
+	// serveCtx is the context handed to Server.Serve (a child of ctx).
+	serveCtx    context.Context
+	serveCancel context.CancelFunc
+	wg          sync.WaitGroup
 	mu     sync.Mutex
 	// ServeErrs collects the return values of Server.Serve, by connection name.
 	ServeErrs map[string]error
@@ -61,6 +64,7 @@ func NewWorld(topo Topo, svc *Svc, sopts []goat.ServerOption, dopts []goat.DialO
 	}
 	w := &World{Topo: topo, Tap: NewTap(), ServeErrs: map[string]error{}, ServeDone: map[string]bool{}}
 	w.ctx, w.cancel = context.WithCancel(context.Background())
+	w.serveCtx, w.serveCancel = context.WithCancel(w.ctx)
 	w.Server = goat.NewServer(ServerName, sopts...)
 	svc.Register(w.Server)
 
@@ -68,7 +72,7 @@ func NewWorld(topo Topo, svc *Svc, sopts []goat.ServerOption, dopts []goat.DialO
 		w.wg.Add(1)
 		go func() {
 			defer w.wg.Done()
-			err := w.Server.Serve(w.ctx, rw)
+			err := w.Server.Serve(w.serveCtx, rw)
 			w.mu.Lock()
 			w.ServeErrs[name] = err
 			w.ServeDone[name] = true
@@ -187,3 +191,6 @@ func (w *World) ServeResult(name string) (bool, error) {
 	defer w.mu.Unlock()
 	return w.ServeDone[name], w.ServeErrs[name]
 }
+
+// CancelServeCtx cancels the context that was passed to Server.Serve.
+func (w *World) CancelServeCtx() { w.serveCancel() }
